@@ -1249,4 +1249,167 @@ theorem decodeFixedSlot (o : SortOptions) (w : Nat) (body : Option (List UInt8))
     · intro y hy; cases hy
       rw [List.take_left' (by rw [invIf_length, hx]), invIf_invIf]
 
+
+theorem decodeField_fixed (o : SortOptions) (t : FTy) (v : FVal) (rest : List UInt8) (hv : t.admits v = true)
+    (h1 : t ≠ .bin) (h2 : ∀ n, t ≠ .fsb n) :
+    decodeField o t (encodeField o t v ++ rest) = some (v, rest) := by
+  have hdec : ∀ (b : UInt8) (r : List UInt8), decodeField o t (b :: r) =
+      if r.length < fixedWidth t then none else
+      some (if b = validByte then some (.int (decodeFixedBody t (invIf o.descending (r.take (fixedWidth t))))) else none,
+        r.drop (fixedWidth t)) := by
+    intro b r
+    cases t <;> first | rfl | exact absurd rfl h1 | exact absurd rfl (h2 _)
+  match v, hv with
+  | none, _ =>
+    have he : encodeField o t none = encodeFixedSlot o (fixedWidth t) none := by
+      cases t <;> first | rfl | exact absurd rfl h1 | exact absurd rfl (h2 _)
+    obtain ⟨b, r, e, hl, hd, hb, _⟩ := decodeFixedSlot o (fixedWidth t) none rest (by simp)
+    rw [he, e, hdec, if_neg (by omega), hd]
+    have : b ≠ validByte := by intro h; simpa using hb.mp h
+    simp [this]
+  | some (.int i), hv =>
+    have he : encodeField o t (some (.int i)) = encodeFixedSlot o (fixedWidth t) (some (encodeFixedBody t i)) := by
+      cases t <;> first | rfl | exact absurd rfl h1 | exact absurd rfl (h2 _)
+    obtain ⟨b, r, e, hl, hd, hb, hx⟩ := decodeFixedSlot o (fixedWidth t) (some (encodeFixedBody t i)) rest
+      (by intro x hx; cases hx; exact fixedBody_length t i hv)
+    rw [he, e, hdec, if_neg (by omega), hd, hx _ rfl, decodeFixedBody_encode t i hv]
+    have : b = validByte := hb.mpr rfl
+    simp [this]
+  | some (.bytes x), hv =>
+    cases t <;> first | (simp [FTy.admits] at hv; done) | exact absurd rfl h1 | exact absurd rfl (h2 _)
+
+/-- **decode ∘ encode at field level**, with anything following the field -/
+theorem decodeField_encodeField (o : SortOptions) (t : FTy) (v : FVal) (rest : List UInt8) (hv : t.admits v = true) :
+    decodeField o t (encodeField o t v ++ rest) = some (v, rest) := by
+  cases t with
+  | bin =>
+    match v, hv with
+    | none, _ =>
+      show (match decodeVar o (encodeVar o none ++ rest) with | none => none | some (v, rest) => some (v.map Scalar.bytes, rest)) = _
+      rw [decodeVar_encodeVar]; rfl
+    | some (.bytes x), _ =>
+      show (match decodeVar o (encodeVar o (some x) ++ rest) with | none => none | some (v, rest) => some (v.map Scalar.bytes, rest)) = _
+      rw [decodeVar_encodeVar]; rfl
+    | some (.int _), hv => simp [FTy.admits] at hv
+  | fsb n =>
+    have hdec : ∀ (b : UInt8) (r : List UInt8), decodeField o (.fsb n) (b :: r) =
+        if r.length < n then none else
+        some (if b = validByte then some (.bytes (invIf o.descending (r.take n))) else none, r.drop n) := by
+      intro b r; rfl
+    match v, hv with
+    | none, _ =>
+      obtain ⟨b, r, e, hl, hd, hb, _⟩ := decodeFixedSlot o n none rest (by simp)
+      show decodeField o (.fsb n) (encodeFixedSlot o n none ++ rest) = _
+      rw [e, hdec, if_neg (by omega), hd]
+      have : b ≠ validByte := by intro h; simpa using hb.mp h
+      simp [this]
+    | some (.bytes x), hv =>
+      simp only [FTy.admits, decide_eq_true_eq] at hv
+      obtain ⟨b, r, e, hl, hd, hb, hx⟩ := decodeFixedSlot o n (some x) rest (by intro y hy; cases hy; exact hv)
+      show decodeField o (.fsb n) (encodeFixedSlot o x.length (some x) ++ rest) = _
+      rw [hv, e, hdec, if_neg (by omega), hd, hx _ rfl]
+      have : b = validByte := hb.mpr rfl
+      simp [this]
+    | some (.int _), hv => simp [FTy.admits] at hv
+  | int s w => exact decodeField_fixed o _ v rest hv (by simp) (by simp)
+  | float w => exact decodeField_fixed o _ v rest hv (by simp) (by simp)
+  | bool => exact decodeField_fixed o _ v rest hv (by simp) (by simp)
+
+theorem decodeRow_encodeRow (fs : List (FTy × SortOptions)) : ∀ (r : List FVal), rowAdmits fs r = true →
+    decodeRow fs (encodeRow fs r) = some r := by
+  induction fs with
+  | nil => intro r h; cases r <;> simp_all [rowAdmits, encodeRow, decodeRow]
+  | cons f fs ih =>
+    obtain ⟨t, o⟩ := f
+    intro r h
+    cases r with
+    | nil => simp [rowAdmits] at h
+    | cons a as =>
+      simp only [rowAdmits, Bool.and_eq_true] at h
+      simp only [encodeRow, decodeRow]
+      rw [decodeField_encodeField o t a _ h.1]
+      show Option.map _ (decodeRow fs (encodeRow fs as)) = _
+      rw [ih as h.2]; rfl
+
+
+theorem encSched_length_full (n : Nat) : ∀ (k : Nat) (v : List UInt8), 4 ≤ k → v.length ≤ n → 1 ≤ v.length →
+    (encSched k v).length = 33 * ((v.length + 31) / 32) := by
+  induction n with
+  | zero => intro k v _ h1 h2; omega
+  | succ n ih =>
+    intro k v hk hv h1
+    rw [encSched.eq_1, schedSize_full hk]
+    by_cases h : v.length ≤ 32
+    · rw [if_pos h]; simp [zeros]; omega
+    · rw [if_neg h]
+      simp only [List.length_append, List.length_cons, List.length_take]
+      rw [ih (k + 1) (v.drop 32) (by omega) (by simp; omega) (by simp; omega)]
+      simp only [List.length_drop]; omega
+
+theorem encSched_length_mini (j : Nat) : ∀ (k : Nat) (v : List UInt8), k + j = 4 → 1 ≤ v.length →
+    (encSched k v).length =
+      if v.length ≤ 8 * j then 9 * ((v.length + 7) / 8) else 9 * j + 33 * ((v.length - 8 * j + 31) / 32) := by
+  induction j with
+  | zero =>
+    intro k v hk h1
+    rw [if_neg (by omega), encSched_length_full _ k v (by omega) (Nat.le_refl _) h1]; omega
+  | succ j ih =>
+    intro k v hk h1
+    rw [encSched.eq_1, schedSize_mini (show k < 4 by omega)]
+    by_cases h : v.length ≤ 8
+    · rw [if_pos h, if_pos (by omega)]; simp [zeros]; omega
+    · rw [if_neg h]
+      simp only [List.length_append, List.length_cons, List.length_take]
+      rw [ih (k + 1) (v.drop 8) (by omega) (by simp; omega)]
+      simp only [List.length_drop]
+      split <;> split <;> omega
+
+theorem encodeVar_length (o : SortOptions) (v : Option (List UInt8)) :
+    (encodeVar o v).length = paddedLength (v.map List.length) := by
+  cases v with
+  | none => rfl
+  | some v =>
+    cases v with
+    | nil => simp [encodeVar, paddedLength, blockSize_eq, miniBlockSize_eq]
+    | cons x xs =>
+      rw [encodeVar_cons, invIf_length]
+      simp only [List.length_cons, Option.map_some, paddedLength, blockSize_eq, miniBlockSize_eq, miniBlockCount_eq]
+      rw [encSched_length_mini 4 0 (x :: xs) rfl (by simp)]
+      simp only [List.length_cons]
+      split <;> omega
+
+theorem encodeField_length (o : SortOptions) (t : FTy) (v : FVal) (hv : t.admits v = true) :
+    (encodeField o t v).length = fieldLength t v := by
+  cases t with
+  | bin =>
+    match v, hv with
+    | none, _ => exact encodeVar_length o none
+    | some (.bytes x), _ => exact encodeVar_length o (some x)
+    | some (.int _), hv => simp [FTy.admits] at hv
+  | fsb n =>
+    match v, hv with
+    | none, _ => simp [encodeField, encodeFixedSlot, fieldLength, fixedWidth, zeros]; omega
+    | some (.bytes x), hv =>
+      simp only [FTy.admits, decide_eq_true_eq] at hv
+      simp [encodeField, encodeFixedSlot, fieldLength, fixedWidth, invIf_length, hv]; omega
+    | some (.int _), hv => simp [FTy.admits] at hv
+  | int s w =>
+    match v, hv with
+    | none, _ => simp [encodeField, encodeFixedSlot, fieldLength, fixedWidth, zeros]; omega
+    | some (.int i), hv =>
+      simp [encodeField, encodeFixedSlot, fieldLength, invIf_length, fixedBody_length _ i hv]; omega
+    | some (.bytes _), hv => simp [FTy.admits] at hv
+  | float w =>
+    match v, hv with
+    | none, _ => simp [encodeField, encodeFixedSlot, fieldLength, fixedWidth, zeros]; omega
+    | some (.int i), hv =>
+      simp [encodeField, encodeFixedSlot, fieldLength, invIf_length, fixedBody_length _ i hv]; omega
+    | some (.bytes _), hv => simp [FTy.admits] at hv
+  | bool =>
+    match v, hv with
+    | none, _ => simp [encodeField, encodeFixedSlot, fieldLength, fixedWidth, zeros]
+    | some (.int i), hv =>
+      simp [encodeField, encodeFixedSlot, fieldLength, invIf_length, fixedBody_length _ i hv]; omega
+    | some (.bytes _), hv => simp [FTy.admits] at hv
+
 end ArrowModel.C11
